@@ -38,7 +38,7 @@ CLAIMED = {
          'Totality/range/fixed-point/onto/listing clauses as run-time contracts for every registry encoder x imputer over the full vector space [-1..n_opts] of enumerated settings (bounded); vector-size and clamp kernels proved.',
          NOTE, TECH),
  'C11': ('other',
-         'Proved for all inputs: get_mod_apply_connection_choice adds exactly the given connections (parallel ones as keyed edges), removes the choice node and exactly the exclusion / tie edges (with get_excluded_edges and get_deriving_edges under their own contracts); the exclusion-pair remapping per existence pattern; ConnectionChoiceNode.validate_conn_edges (edges counted into the matrix of the generator's connector order, foreign connectors rejected, verdict = the generator's validity test, which is proved under C09). Connection sets offered per selection scenario = brute-force valid sets and decoded sets valid for the present connectors are bounded contracts over the CONN corpus.',
+         'Proved for all inputs: get_mod_apply_connection_choice adds exactly the given connections (parallel ones as keyed edges), removes the choice node and exactly the exclusion / tie edges (with get_excluded_edges and get_deriving_edges under their own contracts); the exclusion-pair remapping per existence pattern; ConnectionChoiceNode.validate_conn_edges (edges counted into the matrix in the connector order of the matrix generator, foreign connectors rejected, verdict = the validity test of the generator, which is proved under C09). Connection sets offered per selection scenario = brute-force valid sets and decoded sets valid for the present connectors are bounded contracts over the CONN corpus.',
          NOTE, TECH),
  'C13': ('other',
          'Proved: the row predicates of get_valid_idx_combinations (non-decreasing / strictly increasing), get_constraint_pre_removed_options (a PERMUTATION is only pruned when unsatisfiable; UNORDERED_NOREPL removes only unreachable indices), linked design-variable propagation of DSG.set_des_var_value. Index functions checked exhaustively on the bound the property names and offered architectures = reference for both encoders (bounded); get_constraint_removed_options stays bounded (draft contract undecided).',
